@@ -54,10 +54,12 @@ NOARG_OPS = {
 }
 
 
-def make(fam, tmpl, opname, attr=None):
+def make(fam, tmpl, opname, attr=None, second=False):
     NS = FAMILIES[fam]
 
-    def h(n: int, e: List[int], x0: int, n0: int, i0: int, xset: bool, i: int, i1: int, i2: int, s1: str, b1: bool, sel3: int, fk: int, k: int, mut: int, side: bool) -> str:
+    def h(n: int, e: List[int], x0: int, n0: int, i0: int, xset: bool, i: int, i1: int, i2: int, s1: str, b1: bool, sel3: int, fk: int, k: int, mut: int, side: bool, mut2: int) -> str:
+        if not second:
+            assume(mut2 == -1)
         P = dict(n=n, e=e, x0=x0, n0=n0, i0=i0, i=i, i1=i1, i2=i2, s1=s1, b1=b1, sel3=sel3, fk=fk, bad=0, k=k, keyok=True, inner_set=bool(xset))
         if tmpl == "K2":
             assume(len(e) == 2)
@@ -108,6 +110,15 @@ def make(fam, tmpl, opname, attr=None):
         except (AttributeError, IndexError, KeyError):
             return "no-followup"  # nothing to mutate there (e.g. unset nested value)
         check(same(snap(b_side), s_b, ids=False), "no later in-place change to either instance (at any nesting depth) is visible through the other", f"{tag}/followup-visible/{name}", lambda: f"after {name} on the {'result' if side else 'receiver'}: other side {describe(s_b)} -> {describe(snap(b_side))}")
+        if second:
+            # a second in-place change, now on the OTHER instance, must be invisible through the first one
+            name2, fn2 = pick(muts, mut2)
+            s_a = snap(a_side)
+            try:
+                fn2(b_side)
+            except (AttributeError, IndexError, KeyError):
+                return "ok"
+            check(same(snap(a_side), s_a, ids=False), "no later in-place change to either instance (at any nesting depth) is visible through the other", f"{tag}/second-followup-visible/{name}+{name2}", lambda: f"after {name} on the {'result' if side else 'receiver'} and then {name2} on the other: {describe(s_a)} -> {describe(snap(a_side))}")
         return "ok"
 
     h.__name__ = f"C02_{tmpl}_{opname}_{attr}"
@@ -252,28 +263,34 @@ def _warm():
     for n in (1, 2):
         for mut in range(8):
             for side in (False, True):
-                out.append((n, [1, 2], 3, 4, 5, True, 0, 6, 7, "t", True, 0, 0, 0, mut, side))
+                out.append((n, [1, 2], 3, 4, 5, True, 0, 6, 7, "t", True, 0, 0, 0, mut, side, -1))
     return out
+
+
+def _warm2():
+    return [w[:-1] + (m2,) for w in _warm() for m2 in (0, 3)]
 
 
 def obligations(tier):
     obs = []
     T = 240 if tier == "quick" else 900
     fams = ("eager",) if tier == "quick" else ("eager", "lazy")
+    two = tier == "thorough"  # thorough: a second follow-up mutation on the other instance
+    W = _warm2() if two else _warm()
     for fam in fams:
         for opname in ["deepcopy"] + [x for x in K2_OPS if not x.startswith("setattr")]:
-            obs.append(Ob(f"C02.{fam}.K2.{opname}", make(fam, "K2", opname), _warm(), f"K2 ({fam}): result of {opname} with freshly built conforming arguments; container length <= 2; follow-up mutation one of {[m[0] for m in MUT['K2']]} on result or receiver (symbolic)", expect=set(), timeout=T))
+            obs.append(Ob(f"C02.{fam}.K2.{opname}", make(fam, "K2", opname, second=two), W, ("[two follow-up mutations, one per side] " if two else "") + f"K2 ({fam}): result of {opname} with freshly built conforming arguments; container length <= 2; follow-up mutation one of {[m[0] for m in MUT['K2']]} on result or receiver (symbolic)", expect=set(), timeout=T))
         for opname in ["deepcopy"] + [x for x in K3_OPS if not x.startswith("setattr")]:
             for attr in ("inner", "inner2"):
                 if opname == "deepcopy" and attr == "inner2":
                     continue
-                obs.append(Ob(f"C02.{fam}.K3.{opname}.{attr}", make(fam, "K3", opname, attr), _warm(), f"K3 ({fam}) nested values: result of {opname} on {attr}; follow-up mutation one of {[m[0] for m in MUT['K3']]} on result or receiver", expect=set(), timeout=T))
+                obs.append(Ob(f"C02.{fam}.K3.{opname}.{attr}", make(fam, "K3", opname, attr, second=two), W, ("[two follow-up mutations, one per side] " if two else "") + f"K3 ({fam}) nested values: result of {opname} on {attr}; follow-up mutation one of {[m[0] for m in MUT['K3']]} on result or receiver", expect=set(), timeout=T))
         for opname in NOARG_OPS:
             for attr in ("inner", "inner2"):
-                obs.append(Ob(f"C02.{fam}.K3.{opname}.{attr}", make(fam, "K3", opname, attr), _warm(), f"K3 ({fam}) nested values: degenerate call form {opname} on {attr} (re-assigns the stored value; nothing is handed in); follow-up mutation on result or receiver", expect=set(), timeout=T))
+                obs.append(Ob(f"C02.{fam}.K3.{opname}.{attr}", make(fam, "K3", opname, attr, second=two), W, ("[two follow-up mutations, one per side] " if two else "") + f"K3 ({fam}) nested values: degenerate call form {opname} on {attr} (re-assigns the stored value; nothing is handed in); follow-up mutation on result or receiver", expect=set(), timeout=T))
         KINDS = {"plain-override-nested": "plain subclass overriding a default that is a nested spec instance", "spec-override-nested": "re-decorated subclass overriding a default that is a nested spec instance", "plain-override": "plain subclass overriding a mutable default", "dnc-inherited": "spec subclass declaring do_not_copy for an inherited attribute", "dnc-attr-declared": "attribute declared Attr(do_not_copy=True)", "dnc-redecorated": "re-decorated subclass (no do_not_copy argument) of a class declaring do_not_copy=[attr]", "dnc-attr-redecorated": "re-decorated subclass of a class with an Attr(do_not_copy=True) attribute"}
         for kind in KINDS:
             obs.append(Ob(f"C02.{fam}.inherit.{kind}", make_inherit(fam, kind), [(3, pre, op, sd, m) for pre in range(4) for op in range(7) for sd in (False, True) for m in (0, 1, 2)], f"{KINDS[kind]} ({fam}); one preparatory in-place reset/del (symbolic, or none), then reset_ys / reset / with_x / deepcopy / update / with_ys, then a follow-up mutation on either side", expect={"ok"}, timeout=T))
         for opname in ["deepcopy"] + [x for x in K5_OPS if not x.startswith("setattr")]:
-            obs.append(Ob(f"C02.{fam}.K5.{opname}", make(fam, "K5", opname), _warm(), "K5 with a do_not_copy attribute `big`: carried by identity, everything else unshared", expect=set(), timeout=T))
+            obs.append(Ob(f"C02.{fam}.K5.{opname}", make(fam, "K5", opname, second=two), W, ("two follow-up mutations (one per side); " if two else "") + "K5 with a do_not_copy attribute `big`: carried by identity, everything else unshared", expect=set(), timeout=T))
     return obs
